@@ -4,7 +4,6 @@ JoinReorder alone) is rendered as a C32.Model.ptree and judged INSIDE Coq by the
 and by `model_shape` (the tree is a possible output of the modelled DP: every join node carries exactly the equality
 predicates crossing its two sides, oriented build/probe).  The query answer is compared with the unoptimised plan and
 with a reference join computed here."""
-import itertools
 import vlib
 
 REQ = "From QV Require Import Base.Util C32.Model."
@@ -85,19 +84,26 @@ def gen_case(rng, idx):
     if rng.random() < 0.3:
         for i in rng.sample(range(n), rng.randint(1, min(2, n))):
             locals_.append([i, rng.randrange(NCOLS), rng.choice(["<", ">=", "<>"]), rng.randrange(dom)])
+    # residual predicate: a non-equality over two relations; it cannot be pushed below the joins, so a Filter stays
+    # above the join tree (JoinReorder then takes its reorder_filter_with_join path on every iteration)
+    residual = []
+    if rng.random() < 0.2:
+        i, j = rng.sample(range(n), 2)
+        residual.append([[i, rng.randrange(NCOLS)], [j, rng.randrange(NCOLS)], rng.choice([">=", "<>"]), rng.randrange(dom)])
     from_order = list(range(n))
     rng.shuffle(from_order)
     syntax = rng.choice(["comma", "join", "mixed"])
     c = {"id": idx, "n": n, "shape": shape, "conds": conds, "stats": stats, "shared": shared, "alias": alias,
-         "base": base, "tables": tables, "locals": locals_, "from_order": from_order, "syntax": syntax, "dom": dom}
+         "base": base, "tables": tables, "locals": locals_, "residual": residual, "from_order": from_order,
+         "syntax": syntax, "dom": dom}
     c["sql"] = build_sql(rng, c)
-    ref = reference(c)
+    ref = reference(c) if idx % 2 == 0 else None         # answers are compared on every second case
     c["expected_rows"] = None if ref is None else len(ref)
     prod = 1
     for i in range(n):
         prod *= max(1, sizes[base[i]])
-    c["run"] = ref is not None
-    c["run_noopt"] = ref is not None and prod <= 20000      # the unoptimised comma join is a real cross product
+    c["run"] = ref is not None and idx % 2 == 0
+    c["run_noopt"] = c["run"] and prod <= 5000              # the unoptimised comma join is a real cross product
     return c
 
 
@@ -125,6 +131,7 @@ def build_sql(rng, c):
     sel = ", ".join(f"{vname(c, i)} AS v{i}" for i in range(n))
     order = c["from_order"]
     where = [f"{colname(c, i, col)} {op} {val}" for (i, col, op, val) in c["locals"]]
+    where += [f"{colname(c, *a)} + {colname(c, *b)} {op} {val}" for (a, b, op, val) in c.get("residual", [])]
     if c["syntax"] == "comma":
         frm = ", ".join(fromitem(i) for i in order)
         where = [ptxt(p) for p in c["conds"]] + where
@@ -188,6 +195,10 @@ def reference(c, cap=40000):
                     if len(new) > cap:
                         return None
         partial = new
+    for (a, b, op, val) in c.get("residual", []):
+        partial = [part for part in partial
+                   if part[a[0]][a[1]] is not None and part[b[0]][b[1]] is not None
+                   and ops[op](part[a[0]][a[1]] + part[b[0]][b[1]], val)]
     return sorted(tuple(part[i][NCOLS] for i in range(n)) for part in partial)
 
 
@@ -257,10 +268,8 @@ def eq_preds(c, conjs, local_ok=True):
         if "eq" in cj:
             a, b = parse_col(c, cj["eq"][0]), parse_col(c, cj["eq"][1])
             out.append((a, b))
-        else:
-            rels = set(parse_col(c, x)[0] for x in cj.get("cols", []))
-            if len(rels) > 1 or not local_ok:
-                raise Unparsable(f"non-equality predicate over several relations: {cj['other']}")
+        # anything else (local or residual non-equality predicates) is not a predicate of the join graph;
+        # its effect is covered by the comparison of the answers
     return out
 
 
@@ -323,7 +332,7 @@ def shape_sig(t):
 
 
 def case_term(c, o, notes):
-    g = f"(mkGraph {c['n']} [{'; '.join(coq_pred((tuple(p[0]), tuple(p[1]))) for p in c['conds'])}])"
+    g = f"(mkGraph {c['n']} [{'; '.join(coq_pred((tuple(p[0]), tuple(p[1]))) for p in c['conds'])}] [] [])"
     parts = []
     for k in ("full", "reorder_only"):
         t = o.get(k)
@@ -383,14 +392,30 @@ def evaluate(ctx, cases):
             if not answers:
                 nt["answer"] = {"opt": str(o.get("opt"))[:300], "expected_rows": c["expected_rows"]}
         nt["conn"], nt["wf"] = conn, wf
-        eq.append(bool(shape_full and shape_ro))
+        nt["plan_ok"] = {"full": ok_full, "reorder_only": ok_ro}
+        nt["possible_dp_output"] = {"full": shape_full, "reorder_only": shape_ro}
+        # impl == model: JoinReorder on the bound plan (the modelled function) yields a possible DP output; so does the
+        # whole pipeline, except in the class where later rules re-wrap a relation (see classify)
+        eq.append(bool(shape_ro and (shape_full or classify(c) is not None)))
         ok.append(bool(ok_full and ok_ro and answers and conn and wf))
     return outs, notes, eq, ok
 
 
+def classify(c):
+    """decided by the shape of the input only.  Some relation carries a single-relation predicate: ProjectionPushdown
+    then wraps that scan in a Project, the next fixpoint iteration of JoinReorder registers it under the name "project",
+    its qualified columns resolve to no relation and its edges are lost (Coq: known_c).
+    `local-predicate`: cross joins, same answer (C32_refuted_opaque_relation).
+    `local-predicate+residual-filter`: a Filter also stays above the join tree; the unresolved ON pairs are then dropped
+    by reorder_filter_with_join: lost join predicate, wrong answer (C32_refuted_lost_predicate)."""
+    if c["locals"] and c.get("residual"):
+        return "local-predicate+residual-filter"
+    return "local-predicate" if c["locals"] else None
+
+
 def run(ctx):
     proved = ctx.prove()
-    n = ctx.n(420, 6000)
+    n = ctx.n(300, 6000)
     cases = [gen_case(ctx.rng, i) for i in range(n)]
     if not proved:
         cases += [gen_case(ctx.rng, n + i) for i in range(1500)]
@@ -422,7 +447,9 @@ def run(ctx):
         "syntax": {s: sum(1 for c in cases if c["syntax"] == s) for s in ("comma", "join", "mixed")},
         "shared_column_names": sum(1 for c in cases if c["shared"]),
         "aliased/self-joined": sum(1 for c in cases if c["alias"]),
-        "with_local_predicates": sum(1 for c in cases if c["locals"]),
+        "with_local_predicates(class local-predicate)": sum(1 for c in cases if c["locals"]),
+        "with_residual_two_relation_predicate": sum(1 for c in cases if c.get("residual")),
+        "cases of a known class whose optimized plan violates plan_ok": sum(1 for c, nt in zip(cases, notes) if classify(c) and not nt["plan_ok"]["full"]),
         "answers_compared_with_reference": sum(1 for c in cases if c["run"]),
         "answers_compared_with_unoptimised_plan": sum(1 for c in cases if c["run_noopt"]),
         "distinct_engine_tree_shapes": len(shapes),
@@ -431,9 +458,7 @@ def run(ctx):
     for c, o in list(zip(cases, outs))[:2]:
         ctx.sample({"sql": c["sql"], "conds": c["conds"], "stats": c["stats"], "full": o.get("full")})
 
-    def slim(c):
-        return c
-    ctx.judge(cases, eq, ok, impl_outs=[{"full": o.get("full"), "reorder_only": o.get("reorder_only"), "notes": {k: v for k, v in nt.items() if not k.endswith("_tree")}}
+    ctx.judge(cases, eq, ok, classify=classify, impl_outs=[{"full": o.get("full"), "reorder_only": o.get("reorder_only"), "notes": {k: v for k, v in nt.items() if not k.endswith("_tree")}}
                                         for o, nt in zip(outs, notes)])
     if not proved and not ctx.violations:
         ctx.proof_broken_violation(f"{len(cases)} generated connected join graphs, none violates plan_ok")
